@@ -15,6 +15,7 @@ let mtype_of_char = function
 let ints s = List.map int_of_string (String.split_on_char '.' s)
 let rest s = String.sub s 1 (String.length s - 1)
 
+let bind_serial = ref 0
 let rec parse_op (s : string) : op =
   if s = "" || s = "-" then ONop else
   match s.[0] with
@@ -40,9 +41,13 @@ let rec parse_op (s : string) : op =
      | i :: kind :: mask :: r :: acts ->
        let acts = String.concat "." acts in
        let ops = List.map parse_op (List.filter (fun x -> x <> "") (String.split_on_char ',' acts)) in
-       OBind (pos_of_idx (int_of_string i), kind = "k", z_of_int (int_of_string ("0x" ^ mask)),
+       let id = !bind_serial in
+       incr bind_serial;
+       OBind (pos_of_idx (int_of_string i), z_of_int id, kind = "k", z_of_int (int_of_string ("0x" ^ mask)),
               int_of_string r <> 0, ops)
      | _ -> failwith "bind")
+  | 'U' -> (match ints (rest s) with [i; n] -> OUnbind (pos_of_idx i, z_of_int n) | _ -> failwith "unbind")
+  | 'y' -> OGeom (pos_of_idx (int_of_string (rest s)))
   | _ -> failwith ("op " ^ s)
 
 let join sep l = if l = [] then "-" else String.concat sep l
@@ -72,7 +77,9 @@ let string_of_op = function
   | OFlush w -> Printf.sprintf "f%d" (idx_of_pos w)
   | OKey -> "k"
   | OMouse t -> Printf.sprintf "m%c" (mtype_char t)
-  | OBind (w, _, _, _, _) -> Printf.sprintf "b%d" (idx_of_pos w)
+  | OBind (w, _, _, _, _, _) -> Printf.sprintf "b%d" (idx_of_pos w)
+  | OUnbind (w, n) -> Printf.sprintf "U%d.%d" (idx_of_pos w) (int_of_z n)
+  | OGeom w -> Printf.sprintf "y%d" (idx_of_pos w)
   | ONop -> "-"
 let trace_str (h : heap) = join "," (List.rev_map string_of_op h.tr)
 
@@ -101,6 +108,7 @@ let fault_name = function UAF -> "UAF" | NullDeref -> "NULL" | OOB -> "OOB" | Ab
 let rec int_of_nat = function O -> 0 | S n -> 1 + int_of_nat n
 
 let model_W variant toks =
+  bind_serial := 0;
   let ops = List.map parse_op toks in
   match run_script variant fuel ops with
   | VOk h -> dump h
@@ -168,8 +176,32 @@ let model_O toks =
   | OVFault k -> Printf.sprintf "UAF %d tr=-" (int_of_nat k)
   | OVNoFuel k -> Printf.sprintf "NOFUEL %d" (int_of_nat k)
 
+(* ---- R: the pen stack of a render buffer ------------------------------------------------ *)
+let r_lines = nat_of_int 3
+let parse_rop (s : string) : rop =
+  match s.[0] with
+  | 's' -> RSave
+  | 'S' -> RSavePen
+  | 'x' -> RRestore
+  | 'p' -> RSetPen (s <> "pN")
+  | 't' -> RText (nat_of_int (int_of_string (rest s)))
+  | 'e' -> RErase (nat_of_int (int_of_string (rest s)))
+  | 'c' -> RClear
+  | 'z' -> RReset
+  | 'f' | 'F' -> RFlush
+  | _ -> failwith ("R op " ^ s)
+
+let model_R toks =
+  match rb_run r_lines (List.map parse_rop toks) with
+  | RVOk (obs, lp, ls) ->
+    let cell ((p, s), f) = Printf.sprintf "%d.%d.%d" (int_of_z p) (int_of_z s) (int_of_z f) in
+    Printf.sprintf "OK %s end=%d.%d leak=0"
+      (if obs = [] then "-" else String.concat "," (List.map cell obs)) (int_of_z lp) (int_of_z ls)
+  | RVFault k -> Printf.sprintf "UAF %d tr=-" (int_of_nat k)
+
 let model variant line =
   match split_ws line with
+  | "R" :: toks -> model_R toks
   | "W" :: toks -> model_W variant toks
   | "T" :: toks -> model_T variant.v_destroy_asis toks
   | "O" :: toks -> model_O toks
@@ -200,10 +232,11 @@ let oracle line =
         | None -> "BAD no-trace"
         | Some tr ->
           let ops = if tr = "-" then [] else
-              List.map (fun t -> if t.[0] = 'b' then OBind (pos_of_idx (int_of_string (rest t)), true, Z0, false, [])
+              List.map (fun t -> if t.[0] = 'b' then OBind (pos_of_idx (int_of_string (rest t)), Z0, true, Z0, false, [])
                          else parse_op t) (String.split_on_char ',' tr) in
           (* cross-check of the two formulations of the client's side: what the heap-independent
              discipline accepts must satisfy the hypothesis of the proved theorems *)
+          bind_serial := 0;
           let script = List.map parse_op (List.tl (split_ws case)) in
           let evfree = List.for_all event_free_op script in
           if evfree && wf_client script && not (client_okb fuel script (heap0 fixed))
@@ -214,6 +247,10 @@ let oracle line =
        let ops = if completed then ops else
            (match otoks with _ :: k :: _ -> take (int_of_string k + 1) ops | _ -> ops) in
        if oracle_O ops completed leak then "OK" else "BAD well-formed client, implementation: " ^ obs
+     | "R" :: _ ->
+       (* every program of render buffer calls is a well-formed client *)
+       if completed && not leak && field "end" otoks = Some "0.0" then "OK"
+       else "BAD render buffer calls only, implementation: " ^ obs
      | "T" :: _ -> if oracle_T completed then "OK" else "BAD wrote beyond the length given: " ^ obs
      | _ -> "BAD kind")
 
